@@ -49,13 +49,15 @@ def run(ctx):
             paths.append(b"/" + b"/".join(cs))
     if tier == "quick":
         paths = [p for p in paths if p.count(b"/") <= 2] + rnd.sample([p for p in paths if p.count(b"/") == 3], 60)
-    cfgs = [t2.CONFIGS[0], t2.CONFIGS[3]]
+    # the New layering, a PrefixFS base, and a PrefixFS mounted at "/" as base (Readlink's prefix
+    # trimming then has to keep the leading separator of absolute targets)
+    cfgs = [t2.CONFIGS[0], t2.CONFIGS[3], {"ctor": "generic", "p": b"/", "hs": [], "q": b"/backup"}]
     cases = []
     graphs = list(itertools.product(TARGETS, TARGETS))
     if tier == "quick":
         graphs = rnd.sample(graphs, 70)
     for gi, (ta, tb) in enumerate(graphs):
-        cfg = cfgs[gi % 2]
+        cfg = cfgs[gi % len(cfgs)]
         if t2.view_prefix(cfg) and ta.startswith(b".."):
             # a top-level link climbing above the view root leaves the prefix on disk: such a tree
             # is not expressible through the PrefixFS view (judged under C05/C14), use the bare layering
@@ -85,7 +87,7 @@ def run(ctx):
                              [("realpath", b"/x" + b"/loop" * k + b"/y") for k in (1, 20, 39, 40, 41, 45)]))
     impl, mod = t2.run_both("C16.graphs", cases, model=model_ok)
     res = {"name": "graphs", "n": 0, "mismatch": [], "oracle": [], "nontrivial": 0, "exhaustive": tier != "quick",
-           "desc": "realPath (hook) on paths of up to 3 components (quick: all of up to 2, a sample of 3) and relative spellings, over %s symlink graphs with two links whose targets range over %d absolute/relative/dangling/cyclic/'..'/through-a-link targets, plus graphs changed by earlier operations and names exceeding the kernel's 40-hop limit; model compared on the resolved string; oracle from the OS: no symlink among the parents of the result, same inode as the caller's path; non-trivial = the path runs through a symlink" % ("a sample of 70 of the %d" % (len(TARGETS) ** 2) if tier == "quick" else "all %d" % (len(TARGETS) ** 2), len(TARGETS))}
+           "desc": "realPath (hook) on paths of up to 3 components (quick: all of up to 2, a sample of 3) and relative spellings, over %s symlink graphs (three layerings: New, a PrefixFS base, a PrefixFS mounted at '/') with two links whose targets range over %d absolute/relative/dangling/cyclic/'..'/through-a-link targets, plus graphs changed by earlier operations and names exceeding the kernel's 40-hop limit; model compared on the resolved string; oracle from the OS: no symlink among the parents of the result, same inode as the caller's path; non-trivial = the path runs through a symlink" % ("a sample of 70 of the %d" % (len(TARGETS) ** 2) if tier == "quick" else "all %d" % (len(TARGETS) ** 2), len(TARGETS))}
     nontriv = set()
     for c in cases:
         a = impl[c.id]
